@@ -320,8 +320,11 @@ class AstToSqlVisitor(visitor.NodeVisitor):
         Transform a node into a pattern usable in `LIKE` clauses.
         :meta private:
         """
-        if isinstance(arg, (ast.Identifier, ast.Call)):
+        if not isinstance(arg, ast._Literal):
             res = self.visit(arg)
+            if not isinstance(arg, (ast.Identifier, ast.Call)):
+                # Any other expression (e.g. arithmetic) is an operand of `||`:
+                res = f"({res})"
             if prefix:
                 res = f"'{prefix}' || " + res
             if suffix:
